@@ -342,6 +342,13 @@ pub async fn exec_op(ctx: &mut Option<Ctx>, req: &str, st: &mut Stats) -> (Strin
 fn gen_addr(rng: &mut Rng, v6: bool, pool: u64) -> String {
     let i = rng.below(pool);
     if v6 {
+        // one address in six is IPv4-mapped / IPv4-compatible / NAT64 around the bytes of an IPv4 address of
+        // the pool (round-4 seeds C05, C06: the source of a query canonicalised, tokens shared between
+        // `::a.b.c.d` and `::ffff:a.b.c.d`)
+        if rng.chance(1, 6) {
+            let k = rng.below(3);
+            return format!("v6:{}:{}", hex(&structured_v6(k, [10, 1, (i >> 8) as u8, i as u8])), 7000 + i % 3);
+        }
         let mut ip = vec![0x20u8, 0x01, 0x0d, 0xb8];
         ip.extend_from_slice(&[0u8; 10]);
         ip.extend_from_slice(&(i as u16 + 2).to_be_bytes());
@@ -390,14 +397,18 @@ impl Engine for HandlerEngine {
                 let a = if fam6 { format!("v6:20010db8000000000000000000ff{:04x}:{}", i, 1000 + i) } else { format!("v4:{}:{}", hex(&[10, 9, (i >> 8) as u8, i as u8]), 1000 + i) };
                 ops.push(format!("sadd {} {a} @{t}", ihs[0]));
             }
-            for i in 0..10u64 {
-                for f6 in [false, true] {
+            // up to 16 contacts per family spread over six buckets, a mix of good and questionable ones
+            // around the reply's cap of 8 (round-3 seed C17: a reply listing 7 good + 8 questionable nodes)
+            for f6 in [false, true] {
+                let (ng, nq) = *rng.pick(&[(10u64, 0u64), (7, 8), (8, 8), (0, 12), (6, 9), (7, 1), (16, 0), (3, 13)]);
+                for i in 0..(ng + nq) {
                     let mut id = me.clone();
-                    id[0] ^= 0x80;
+                    let c = (i % 6) as usize;
+                    id[0] ^= 0x80 >> c;
                     id[19] = i as u8;
-                    let a = if f6 { format!("v6:20010db8000000000000000000ee{:04x}:{}", i, 2000 + i) } else { format!("v4:{}:{}", hex(&[10, 8, 0, i as u8]), 2000 + i) };
                     id[18] = f6 as u8;
-                    ops.push(format!("tadd g {} {a} @{t}", hex(&id)));
+                    let a = if f6 { format!("v6:20010db8000000000000000000ee{:04x}:{}", i, 2000 + i) } else { format!("v4:{}:{}", hex(&[10, 8, 0, i as u8]), 2000 + i) };
+                    ops.push(format!("tadd {} {} {a} @{t}", if i < ng { "g" } else { "q" }, hex(&id)));
                 }
             }
             for want in ["both", "none", "n4", "n6"] {
@@ -442,7 +453,10 @@ impl Engine for HandlerEngine {
         for _ in 0..n {
             t += match rng.below(12) { 0 => 600 * S, 1 => 900 * S, 2 => 1500 * MS, 3 => 6 * S, _ => rng.below(2000) as u128 * MS };
             let src6 = if rng.chance(1, 4) { !v6 } else { v6 };
-            let src = if !contacts.is_empty() && rng.chance(1, 3) { rng.pick(&contacts).1.clone() } else { gen_addr(rng, src6, pool) };
+            // now and then a link-local requester (its source address carries an interface scope: only ever a
+            // requester, never a node named by others — addresses decoded from messages have no scope)
+            let src = if src6 && rng.chance(1, 6) { format!("v6:fe80000000000000000000000000{:04x}:{}", 1 + rng.below(3), 7000 + rng.below(2)) }
+                      else if !contacts.is_empty() && rng.chance(1, 3) { rng.pick(&contacts).1.clone() } else { gen_addr(rng, src6, pool) };
             let sid = if !contacts.is_empty() && rng.chance(1, 2) { rng.pick(&contacts).0.clone() } else { hex(&rng.bytes(20)) };
             let tidlen = *rng.pick(&[0usize, 1, 2, 4, 8, 8, 20, 32]);
             let tid = format!("x{}", hex_or_dash(&rng.bytes(tidlen)));
@@ -458,7 +472,7 @@ impl Engine for HandlerEngine {
                     issued_tokens.push((src.clone(), format!("T{ip}.")));
                 }
                 9..=13 => {
-                    let port = if rng.chance(1, 2) { "implied".to_string() } else { rng.below(65536).to_string() };
+                    let mut port = if rng.chance(1, 2) { "implied".to_string() } else { rng.below(65536).to_string() };
                     let (asrc, tok) = if !issued_tokens.is_empty() && rng.chance(3, 4) {
                         let j = rng.below(issued_tokens.len() as u64) as usize;
                         let (s, tpre) = issued_tokens[j].clone();
@@ -471,6 +485,8 @@ impl Engine for HandlerEngine {
                         let l = *rng.pick(&[0usize, 19, 20, 21, 40]);
                         (src.clone(), hex_or_dash(&rng.bytes(l)))
                     };
+                    // the explicit port equal to the source port: the same contact as with an implied port
+                    if port != "implied" && rng.chance(1, 3) { port = asrc.rsplit(':').next().unwrap_or("1").to_string(); }
                     ops.push(format!("in {tid} {asrc} q announce_peer id={sid} info_hash={} port={port} token={tok} @{t}", rng.pick(&ihs)));
                 }
                 14..=15 => {
